@@ -198,7 +198,7 @@ func checkCase(c Case, rec *evid.Rec) error {
 
 func TestC03(t *testing.T) {
 	evid.Main(t, "C03", func(rec *evid.Rec) {
-		rec.Rule("rapid paths (<=40 plies, legal moves and occasional null moves when not in check) from suite/bench/synthetic/motif roots; at every level EVERY generated pseudo-legal move (legal or not) and the null move are made and undone; complete depth-2/3 make/undo trees at the end of sampled paths; then the path is unwound. Oracle: deep snapshot (placement in three encodings, rights, en-passant, both counters, whole hash history) before make == after undo, at every unwinding level. Non-trivial = capture / castle / promotion / en passant / ep-state cleared / illegal pseudo-legal move; distinct by (position, move)")
+		rec.Rule("rapid paths (<=40 plies, legal moves and occasional null moves when not in check) from suite/bench/synthetic/motif roots; at every level EVERY generated pseudo-legal move (legal or not) and the null move are made and undone; complete depth-2/3 make/undo trees at the end of sampled paths; then the path is unwound; long games (100..260 plies) and very long ones (1030..1300 plies, thorough ..4200: hash histories beyond 1024 / 2048 entries) are unwound to the start as well. Oracle: deep snapshot (placement in three encodings, rights, en-passant, both counters, whole hash history) before make == after undo, at every unwinding level. Non-trivial = capture / castle / promotion / en passant / ep-state cleared / illegal pseudo-legal move; distinct by (position, move)")
 		rec.Assume("snapshot hook board.VerifSnapshot (build tag verif) copies every field of Board")
 		rec.Rapid(t, "undo", evid.Pick(30000, 1000000), func(t *rapid.T) {
 			root, label := gen.Root(t)
@@ -252,6 +252,30 @@ func TestC03(t *testing.T) {
 			}
 			if err := checkCase(c, rec); err != nil {
 				rec.Fail("long_game", err.Error(), c)
+				t.Fatalf("%v", err)
+			}
+		})
+		rec.Rapid(t, "very_long_game", evid.Pick(2, 30), func(t *rapid.T) {
+			// "at any nesting depth": histories of more than a thousand (two thousand) entries, unwound to the start
+			root := refchess.MustFEN(gen.StartFEN)
+			if gen.Chance(t, 1, 3, "other") {
+				root, _ = gen.Root(t)
+			}
+			root.Half = 0
+			ms, _ := gen.LongShuffle(t, root, 1030, evid.Pick(1300, 4200))
+			c := Case{FEN: root.FEN()}
+			for _, m := range ms {
+				c.Path = append(c.Path, m.String())
+			}
+			c.From = max(0, len(c.Path)-gen.Draw(t, 1, 10, "tail"))
+			if len(c.Path) >= 1024 {
+				rec.Class("history>=1024")
+			}
+			if len(c.Path) >= 2048 {
+				rec.Class("history>=2048")
+			}
+			if err := checkCase(c, rec); err != nil {
+				rec.Fail("very_long_game", err.Error(), c)
 				t.Fatalf("%v", err)
 			}
 		})
